@@ -430,10 +430,19 @@ def g_vcf(rng, big, flavour, defs=None, ns=None):
     head = ["##fileformat=VCFv4.2"]
     if rng.random() < 0.5:
         head.append("##contig=<ID=chr1,length=1000>")
+    # the other kinds of header lines: structured (FILTER/ALT/FORMAT/contig with extra keys) and free key=value lines
+    for extra in rng.sample(['##FILTER=<ID=q10,Description="Quality below 10">', '##FILTER=<ID=s50,Description="Less than 50% of samples">',
+                             '##ALT=<ID=DEL,Description="Deletion">', '##source=c02-' + g_ident(rng, 3), "##reference=file:///ref.fa",
+                             "##fileDate=20260927", '##contig=<ID=chr2,length=500,assembly=b37,md5=f1,species="Homo sapiens">',
+                             "##bcftools_viewCommand=view -h x.vcf", "##phasing=partial"], rng.choice([0, 0, 1, 2, 4])):
+        head.append(extra)
     for k, num, t in defs:
         head.append(f'##INFO=<ID={k},Number={num},Type={t},Description="{g_ident(rng)} {g_ident(rng)}">')
     if ns:
         head.append('##FORMAT=<ID=GT,Number=1,Type=String,Description="Genotype">')
+        if rng.random() < 0.5:
+            head.append('##FORMAT=<ID=DP,Number=1,Type=Integer,Description="Read Depth">')
+            head.append('##FORMAT=<ID=PL,Number=G,Type=Integer,Description="Likelihoods">')
     cols = "#CHROM POS ID REF ALT QUAL FILTER INFO".split() + (["FORMAT"] + [f"s{i}" for i in range(ns)] if ns else [])
     head.append("\t".join(cols))
     extra_fmt = ns and rng.random() < 0.5 and flavour != "PhasedVCFMatrixBuffer"
